@@ -783,7 +783,9 @@ func c20Wire(run *evid.Run, cfg Cfg, candidates [][2]string) {
 	dir := cfg.Dir("c20-wire")
 	port := rig.FreePort("127.0.0.1")
 	d, err := rig.PrepareDaemon(rig.DaemonOpts{Dir: dir, ID: 1, IP: "127.0.0.1", Port: port, CA: ca,
-		Peers:       map[uint64]string{1: fmt.Sprintf("127.0.0.1:%d", port)},
+		// Peers 2 and 3 are configured but not running (nothing listens on their ports): a client's distributed
+		// Generate gets as far as the first message to them, fails there, and must be answered every time.
+		Peers:       map[uint64]string{1: fmt.Sprintf("127.0.0.1:%d", port), 2: fmt.Sprintf("127.0.0.2:%d", rig.FreePort("127.0.0.2")), 3: fmt.Sprintf("127.0.0.3:%d", rig.FreePort("127.0.0.3"))},
 		Permissions: map[string]map[string][]string{"client1": {".*": {"All"}}},
 		NDWallets:   c20Wallets, DistWallets: []string{"D"},
 		Wrapper: []string{"prlimit", "--as=8589934592"}, LogLevel: "trace"})
@@ -883,6 +885,28 @@ func c20Wire(run *evid.Run, cfg Cfg, candidates [][2]string) {
 		if dead {
 			run.Violate(fmt.Sprintf("the daemon died on wire input %d (%s): %s", i, method, firstPanicLine(d.LogTail(20000))),
 				map[string]any{"method": method, "hex": hex.EncodeToString(raw), "daemon_log_tail": d.LogTail(3000)})
+			return
+		}
+	}
+	// Well-formed distributed Generate requests while the other participants are unreachable: each one fails, and
+	// each one is answered - the fiftieth like the first.  (A request that is still unanswered when its 45 s deadline
+	// expires, after its predecessors were answered at once, is a caller left without response or error.)
+	am := pb.NewAccountManagerClient(conn)
+	for i := 0; i < 50; i++ {
+		ctx, cancel := context.WithTimeout(context.Background(), 45*time.Second)
+		res, err := am.Generate(ctx, &pb.GenerateRequest{Account: fmt.Sprintf("D/unreachable-%d", i), Passphrase: []byte("pass"), Participants: 3, SigningThreshold: 2})
+		expired := ctx.Err() != nil
+		cancel()
+		run.Eval(1)
+		run.Count("wire_generate_with_unreachable_peers", 1)
+		run.Distinct(fmt.Sprintf("wire generate with unreachable peers: state=%v err=%v", res.GetState(), err != nil))
+		if !d.Alive() {
+			run.Violate("the daemon died on a distributed Generate whose peers are unreachable: "+firstPanicLine(d.LogTail(40000)), map[string]any{"daemon_log_tail": d.LogTail(3000)})
+			return
+		}
+		if expired {
+			run.Violate(fmt.Sprintf("distributed Generate number %d with unreachable peers was not answered within 45 s; the %d before it were answered", i+1, i),
+				map[string]any{"request": i + 1, "account": fmt.Sprintf("D/unreachable-%d", i)})
 			return
 		}
 	}
